@@ -2,7 +2,7 @@
    Serialization of field elements and curve points round-trips at the advertised size;
    field encodings are unique.  Models: coq/C09/{Bytes,FpCodec,PointCodec}.v. *)
 From V Require Import Base.Field C09.Bytes C09.FpCodec C09.Specs C09.PointCodec C09.Exec.
-From V Require Import C09.BytesProofs C09.FpCodecProofs C09.PointCodecProofs C09.Instance.
+From V Require Import C09.BytesProofs C09.FpCodecProofs C09.PointCodecProofs C09.Instance C09.ExtSize.
 
 (* ---- the three shipped flag types meet the contract of `trait Flags` ---- *)
 Theorem C09_flags_empty : FlagOK EmptyFlags. Proof. exact EmptyFlags_ok. Qed.
@@ -59,6 +59,43 @@ Theorem C09_fq12_codec : forall N p, fp_cfg_ok N p ->
 Proof.
   exact (fun N p H => quad_codec_ok _ _ _ (cubic_codec_ok _ _ _ (quad_codec_ok _ _ _ (fp_codec_ok N p H)))).
 Qed.
+
+(* ext_size_with_flags: the advertised size of an EXTENSION element serialized with flags
+   (QuadExtField / CubicExtField::serialized_size_with_flags = compressed size of the leading
+   coefficients + with-flags size of the last one) equals the number of bytes written, for every
+   base codec, hence every modulus and every lawful flag type -- including base fields whose top
+   byte cannot hold the flags: only the LAST coefficient grows by the extra byte *)
+Theorem C09_ext_size_with_flags : forall K (C : Codec K) valid, CodecOK C valid ->
+  forall FT x f, FlagOK FT -> quad_valid valid x ->
+  c_size (quad_codec C) FT = c_sizep C + c_size C FT /\
+  exists bs, c_enc (quad_codec C) FT x f = Ok bs /\
+    Z.of_nat (length bs) = c_sizep C + c_size C FT.
+Proof. exact ext_size_with_flags_quad. Qed.
+Theorem C09_ext_size_with_flags_cubic : forall K (C : Codec K) valid, CodecOK C valid ->
+  forall FT x f, FlagOK FT -> cubic_valid valid x ->
+  c_size (cubic_codec C) FT = c_sizep C + c_sizep C + c_size C FT /\
+  exists bs, c_enc (cubic_codec C) FT x f = Ok bs /\
+    Z.of_nat (length bs) = c_sizep C + c_sizep C + c_size C FT.
+Proof. exact ext_size_with_flags_cubic. Qed.
+(* Fp2 / Fp3 over any prime field of N limbs, and the 2-level tower Fp4 = Fp2[v]/(v^2 - u):
+   (deg - 1) * ceil(bits / 8) + ceil((bits + BIT_SIZE) / 8) bytes, advertised and written *)
+Theorem C09_fp2_size_with_flags : forall N p FT c0 c1 f, fp_cfg_ok N p -> FlagOK FT ->
+  0 <= c0 < p -> 0 <= c1 < p ->
+  c_size (quad_codec (fp_codec N p)) FT = fp_size p EmptyFlags + fp_size p FT /\
+  exists bs, c_enc (quad_codec (fp_codec N p)) FT (c0, c1) f = Ok bs /\
+    Z.of_nat (length bs) = fp_size p EmptyFlags + fp_size p FT.
+Proof. exact fp2_size_with_flags. Qed.
+Theorem C09_fp3_size_with_flags : forall N p FT c0 c1 c2 f, fp_cfg_ok N p -> FlagOK FT ->
+  0 <= c0 < p -> 0 <= c1 < p -> 0 <= c2 < p ->
+  c_size (cubic_codec (fp_codec N p)) FT = fp_size p EmptyFlags + fp_size p EmptyFlags + fp_size p FT /\
+  exists bs, c_enc (cubic_codec (fp_codec N p)) FT (c0, c1, c2) f = Ok bs /\
+    Z.of_nat (length bs) = fp_size p EmptyFlags + fp_size p EmptyFlags + fp_size p FT.
+Proof. exact fp3_size_with_flags. Qed.
+Theorem C09_fp4_size_with_flags : forall N p FT x f, fp_cfg_ok N p -> FlagOK FT ->
+  quad_valid (quad_valid (fun v => 0 <= v < p)) x ->
+  exists bs, c_enc (quad_codec (quad_codec (fp_codec N p))) FT x f = Ok bs /\
+    Z.of_nat (length bs) = 3 * fp_size p EmptyFlags + fp_size p FT.
+Proof. exact fp4_size_with_flags. Qed.
 
 (* ---- curve points: every on-curve affine point incl. the identity, 4 modes, both models,
         affine and projective.  Premise `point_hyps` (Specs.v): the base field is a field, sqrt
@@ -125,6 +162,20 @@ Proof. exact (conj ex_enc_spill ex_dec_spill). Qed.
 Example C09_ex_stray_bit_rejected :
   fp_dec 1 (2 ^ 64 - 59) SWFlags [2; 1; 0; 0; 0; 0; 0; 0; 129] = Err E_InvalidData.
 Proof. exact ex_dec_spill_stray. Qed.
+(* Fp2 over the secp256k1 base field (256 bits, no spare bit in the top byte): 65 = 32 + 33 with
+   SWFlags / TEFlags (not 66 = 33 + 33), 64 without flags; Fp3: 97 = 32 + 32 + 33; the flag lands
+   in byte 64, byte 63 (top byte of c1 = 7) and byte 31 (top byte of c0 = p - 1) carry no flag *)
+Example C09_ex_ext_size_256 :
+  let p := 2 ^ 256 - 2 ^ 32 - 977 in
+  fp_cfg_ok 4 p /\
+  fp_size p EmptyFlags = 32 /\ fp_size p SWFlags = 33 /\ fp_size p TEFlags = 33 /\
+  c_size (quad_codec (fp_codec 4 p)) SWFlags = 65 /\
+  c_size (quad_codec (fp_codec 4 p)) TEFlags = 65 /\
+  c_size (quad_codec (fp_codec 4 p)) EmptyFlags = 64 /\
+  c_size (cubic_codec (fp_codec 4 p)) SWFlags = 97 /\
+  (forall bs, c_enc (quad_codec (fp_codec 4 p)) SWFlags (p - 1, 7) YIsNegative = Ok bs ->
+     length bs = 65%nat /\ nth 64 bs 0 = 128 /\ nth 63 bs 0 = 0 /\ nth 31 bs 0 = 255).
+Proof. exact ex_ext_size_256. Qed.
 (* y^2 = x^3 + 7 over F_13 (group of order 7): the point (7, 8) has the larger y, the identity *)
 Example C09_ex_sw_point :
   let F := ZpOps 13 in let C := fp_codec 1 13 in let sq := fsqrt F 2 in
